@@ -6,8 +6,8 @@ from ..core import Script, Rng
 from ..stage import LineStage, replay_line
 from .common import *
 
-ARTEFACTS = ["G1-consts", "G4-listings", "G23-c-wide"]
-EXTRA_PROPS = [("B3.Props.C06W", "B3/Props/C06W.lean")]   # theorems about the code translated from the sources
+ARTEFACTS = ["G1-consts", "G4-listings", "G23-c-wide", "G3b-regions", "G6-skeleton", "G9-update"]
+EXTRA_PROPS = [("B3.Props.C02T", "B3/Props/C02T.lean"), ("B3.Props.C06W", "B3/Props/C06W.lean")]   # theorems about the code translated from the sources
 RULE = ("the hook's scripted Join (per split: 0 = left first, 1 = right first, 2 = right half on a new thread) drives "
         "update_with_join on inputs with > simd_degree chunks (and update_mmap_rayon on real files of lengths around the 16 KiB mmap threshold inside pools of 1 and 2..16 threads): all 3^k schedules for inputs with k <= 4 splits (cyclic script), sampled "
         "beyond; update_rayon in pools of 1..16 threads; the C library's BLAKE3_USE_TBB seam implemented by harness/c with the same "
@@ -88,6 +88,53 @@ def rayon_tail_scripts(rng, count):
     return out
 
 
+class RayonLargeStage:
+    """update_rayon on inputs of 4 .. 17 MiB inside pools of EVERY size 1..9, 12, 16 (not only powers of two), against update on
+    the same bytes in the same process; then more input and a second comparison (implementation-only: the sizes are beyond the
+    Lean driver; update = specification is C01/C02)"""
+    name = "rayon-large-all-pool-sizes"
+
+    def __init__(self, seed, tier):
+        self.seed, self.tier = seed, tier
+
+    def run(self, lean_exe):
+        from .. import core
+        from . import io_gen
+        ok, exe, log = core.build_rs(())
+        if not ok:
+            return dict(evaluations=0, distinct=set(), hist={}, samples=[], mismatches=[dict(kind="driver-crash", impl_name="rs", ops=[], log_tail=log[-2000:])])
+        rng = Rng(self.seed)
+        mism, n, keys = [], 0, set()
+        sizes = [(1 << 22) + 1, 1 << 23, (1 << 24) + 1025] if self.tier == "quick" else [(1 << 22) + 1, 1 << 23, (1 << 24) + 1025, 1 << 25, (3 << 23) + 7]
+        for threads in [1, 2, 3, 4, 5, 6, 7, 8, 9, 12, 16]:
+            for size in sizes:
+                sd = rng.randrange(1 << 32)
+                mode = mode_tok(rng)
+                s = io_gen.IoScript(tags=("rayon-large", f"threads{threads}"))
+                s.op(f"H new a {mode}", "ok")
+                s.op(f"H new b {mode}", "ok")
+                pre = rng.choice([0, 0, 1024, 5000])
+                if pre:
+                    s.op(f"H upd a pat {pre} 3", "ok")
+                    s.op(f"H upd b pat {pre} 3", "ok")
+                s.op(f"H upd a pat {size} {sd}", "ok")
+                s.op(f"H updray b {threads} pat {size} {sd}", "ok")
+                ca, cb = s.op("H cnt a"), s.op("H cnt b")
+                fa, fb = s.op("H fin a"), s.op("H fin b")
+                s.op("H upd a pat 3000 7", "ok")
+                s.op("H upd b pat 3000 7", "ok")
+                ga, gb = s.op("H fin a"), s.op("H fin b")
+                s.equal += [(ca, cb), (fa, fb), (ga, gb)]
+                rc, outs, err = core.run_driver(exe, list(s), timeout=300)
+                n += len(s)
+                keys.add(s.key())
+                bad = io_gen.check_outputs(s, outs)
+                if bad and len(mism) < 5:
+                    mism.append(dict(kind="impl-vs-spec", impl_name="rs", ops=list(s), complaints=bad[:5], impl_differs=True,
+                                     note="update_rayon differs from update on the same bytes"))
+        return dict(evaluations=n, distinct=keys, hist={"rayon-large": len(keys)}, samples=[], mismatches=mism)
+
+
 class TbbConcurrentStage:
     """blake3_hasher_update_tbb with every join running its right half on a REAL second thread (join script `2`), on inputs of
     1 .. 8 MiB, repeated; the digest must equal blake3_hasher_update's on the same bytes in the same process (implementation-only
@@ -146,11 +193,14 @@ def stages(tier, seed, witness_search=False):
     return [LineStage("scripted-join+rayon", sched_scripts(rng, tier) + rayon_scripts(rng, k) + rayon_tail_scripts(rng, k), normalize=normalize),
             LineStage("c-tbb-seam", tbb_scripts(rng, k), impl="c", normalize=normalize),
             TbbConcurrentStage(seed + 9, 40 if tier == "quick" else 600),
+            RayonLargeStage(seed + 10, tier),
             # update_mmap_rayon on real files inside pools of 1 and 2..16 threads, against plain update of the same bytes
             c11.FileStage(seed + 7, fifo=False)]
 
 
 def replay(d, lean_exe):
+    if d.get("stage") == "rayon-large-all-pool-sizes":
+        return replay_line(d, lean_exe, normalize=normalize)
     if d.get("stage") == "c-tbb-concurrent":
         return dict(still_fails=False, note="schedule-dependent: feed `ops` to harness/c/build/cdriver repeatedly")
     if d.get("stage") == "files":
